@@ -46,6 +46,10 @@ DEPRECATED_LINES = ['Return value: (transfer full): x', 'Returns value: x', 'Ret
                     '@p: (transfer full=1)', '@p (in): no colon', '@p: (in) no colon', '@: x', '@', ':', '::', ' : ',
                     'SECTION:x', 'Returns: (skip) (skip)', 'Stability: Unknown', 'Deprecated: x.y: z', '(skip)',
                     '  (transfer full)', '((', '))', 'foo: (copy-func)', 'foo: (free-func x)',
+                    # parentheses holding only white space, at every annotation position
+                    'foo: ( )', 'foo: (  ) (skip)', '@p: ( )', '@p: (in) (\t): x', '@p: (\xa0)', 'Returns: ( )',
+                    'Returns: (transfer full) (  ): r', 'Since: ( ) 2.0', '  ( )', '( ) (skip)', '(skip) ( )', '(( ))', '()',
+                    '(\u2028)', '@p: ( \t )',
                     # continuation lines that start well and are rejected as a whole
                     '  (out) ((x)', '(transfer none) (in', '  (skip) ())', '(nullable) (optional) )', '(method) (a (b)']
 DEGENERATE = ['', ' ', '/**', '/** */', '/**/', '/***/', '/**\n*/', '/**\n */', '/**\n', '/*\n * x:\n */', '/** x: */',
@@ -53,7 +57,10 @@ DEGENERATE = ['', ' ', '/**', '/** */', '/**/', '/***/', '/**\n*/', '/**\n */', 
               '/** foo:\n * @a: b\n */', 'int x; /**\n * foo:\n */ int y;', '/**\r\n * foo:\r\n */', '/**\r * foo:\r */',
               '/**\n * foo:\n **/', '/**\n * foo:\n * text */', '/**\n * @p: x\n */', '/**\n *\n * foo:\n */',
               '/**\n * foo: (skip\n */', '/**\n * foo:\n * @p: (in\n * out)\n */', '/**\n * foo: (copy-func)\n */',
-              '/**\n * foo:\n * @p: (in)\n *   (foo)\n */', '/**\n * foo:\n *\n * Rename to: a b\n */']
+              '/**\n * foo:\n * @p: (in)\n *   (foo)\n */', '/**\n * foo:\n *\n * Rename to: a b\n */',
+              '/**\n * foo: ( )\n */', '/**\n * foo:\n * @p: (\t)\n */', '/**\n * foo:\n *\n * Returns: (  )\n */',
+              '/**\n * foo:\n * @p:\n *   ( )\n */', '/**\n * foo:\n *   ( ) (skip)\n */', '/**\n * foo: (skip) ( )\n */',
+              '/**\n * foo: (\xa0)\n */', '/**\n * foo: (( ))\n */', '/**\n * foo: ()\n */']
 
 
 def mutate_block_text(rng, text):
